@@ -39,12 +39,22 @@ def optAreas : Option (List Area) → Json
   | none => Json.null
   | some l => jArr (l.map areaToJson)
 
+def pobjOfJson (j : Json) : R PObj := do
+  return { id := ← natF j "id", feat := ← featOfJson (← fld j "feat") }
+
+def candOfJson (j : Json) : R Cand := do
+  return { feat := ← featOfJson j, members := ← listOf pobjOfJson (fldD j "members" (jArr [])) }
+
 /-- one region: model outputs, spec verdicts on the implementation's outputs, scope flags -/
 def handleRegion (j : Json) : R Json := do
   let c : Ctx := { region := ← locOfJson (← fld j "region"), L := ← intF j "L", circular := ← boolF j "circular" }
-  let r : RegionIn := { subregions := ← listOf featOfJson (← fld j "subs"),
-                        candidates := ← listOf featOfJson (← fld j "cands"),
-                        protos := ← listOf featOfJson (← fld j "protos") }
+  let subs ← listOf featOfJson (← fld j "subs")
+  let cands ← listOf candOfJson (← fld j "cands")
+  -- what `region.get_unique_protoclusters()` delivered, by identity
+  let delivered ← listOf pobjOfJson (← fld j "delivered")
+  -- the layout model runs on the delivered order; the spec on the region's children
+  let r : RegionIn := { subregions := subs, candidates := cands.map (·.feat), protos := delivered.map (·.feat) }
+  let rSpec := regionSpecIn subs cands
   let genes ← listOf locOfJson (← fld j "genes")
   let views := genes.map (geneView c)
   let impl ← fld j "impl"
@@ -62,7 +72,7 @@ def handleRegion (j : Json) : R Json := do
     | none => jObj [("in_range", toJson false), ("rows_disjoint", toJson false), ("complete", toJson false)]
     | some out => jObj [("in_range", toJson (areasInRange c out)),
                         ("rows_disjoint", toJson (decide (RowsDisjoint out))),
-                        ("complete", toJson (completeB c.L r out))]
+                        ("complete", toJson (completeB c.L rSpec out))]
   let placed (orfs : List Orf) : Bool :=
     -- genes drawn whole are placed by genome distance from the region's first base
     match (parseOrfsGo none orfs) with
@@ -82,11 +92,16 @@ def handleRegion (j : Json) : R Json := do
                     ("start", toJson ann.1), ("end", toJson ann.2)]),
     ("spec", jObj [("areas", specAreas), ("orfs", specOrfs),
                    ("announced", toJson (match implAnn with | some a => announcedOk c a | none => false)),
-                   ("protos_sorted", toJson (!c.regionCrosses || sortedByKey c r.protos))]),
-    ("scope_areas", toJson (inputOK c r)),
+                   ("delivered_ok", toJson (deliveredOk cands delivered)),
+                   ("protos_sorted", toJson (sortedByKey c r.protos))]),
+    ("unique", toJson ((uniqueProtoclusters c cands).map (·.id))),
+    ("scope_areas", toJson (inputOK c rSpec && idsConsistent (cands.flatMap (·.members)))),
     ("scope_genes", toJson (regionOK c && views.all (viewOK c))),
     ("info", jObj [("extend", toJson c.extend), ("region_crosses", toJson c.regionCrosses),
-                   ("n_crossing", toJson ((toDraw r).filter (·.crosses)).length),
+                   ("n_crossing", toJson ((toDraw rSpec).filter (·.crosses)).length),
+                   ("n_protos", toJson (regionProtos cands).length),
+                   ("n_tied", toJson (((regionProtos cands).filter fun p => (regionProtos cands).any fun q =>
+                      p.id != q.id && reductionKey c p.feat == reductionKey c q.feat).length)),
                    ("n_gene_crossing", toJson (views.filter (·.crosses)).length)])]
 
 /-- pack alone (unit level): rows as lists of indices into the input -/
